@@ -162,8 +162,11 @@ def contract_lines(evs):
                             "id": e.get("id", 0), "probe": bool(e.get("probe")), "bad": bad})
             elif op == "write":
                 out.append({"k": "write", "id": e["id"], "bad": bad})
-            elif op == "fc":
-                out.append({"k": "fc", "id": e["id"]})
+            elif op in ("fc", "cw"):
+                for i in e.get("ids", [e.get("id")]):
+                    out.append({"k": "fc", "id": i})
+            elif op == "fw":
+                out.append({"k": "fw", "id": e["id"]})
             elif op == "pr":
                 out.append({"k": "pr", "got": bool(e["got"])})
             elif op == "read":
